@@ -4,15 +4,22 @@ Generator: as C11 - tree-shaped targets with immutable and fault-injecting conta
 walking the target (parent present/absent at every position, final element present/absent), every
 admissible spelling (dotted string, Path with T chunks, pure T, S-rooted), ignore_missing in
 {False, True}; delete() and Delete inside a tuple spec; plus Delete through 1-3 wildcards.
+`computed`: the same paths with T[...] arguments that are computed over the target (T expression, Spec, Val, scope
+variable) in the final and in middle positions.  `refuse`: a catalogue of present attributes whose deletion Python refuses
+with AttributeError (frozen dataclass, property without deleter, namedtuple field, read-only builtin attribute, sealing
+__delattr__) and absent attributes of the same objects, in T.attr, Path and string addressing.
 
 Oracle: Python's `del` on an independently built copy.
 """
+import collections
+import dataclasses
+
 from hypothesis import strategies as st
 
 import glom
 from glom import Delete, GlomError, PathAccessError, PathDeleteError
 
-from ..runner import Sub, Mismatch
+from ..runner import Sub, Mismatch, HarnessBug
 from .. import targets as tg
 from .. import mutcommon as mc
 
@@ -23,6 +30,9 @@ RULE = ('targets: tree-shaped recipes (depth <= 3) incl. immutable and fault-inj
 ASSUMPTIONS = [
     'reference = Python del on an independently built copy of the same recipe',
     'deletion faults (immutable containers, raising __delitem__/__delattr__): some exception, class not constrained, target unchanged',
+    'a present element (plain Python reads it) whose del raises is never reported as deleted or as missing: some exception '
+    'also under ignore_missing=True, whatever class the refusal has (only LookupError from the deletion itself is unconstrained)',
+    'a computed T[...] argument denotes the key it evaluates to over the target, in the final step as in any other',
 ]
 
 
@@ -97,7 +107,12 @@ def gen(draw):
 
 
 def check(recipe, ctx):
-    steps = [(op, seg) for op, seg in recipe['steps']]
+    _check(recipe, ctx, [(op, seg) for op, seg in recipe['steps']], None)
+
+
+def _check(recipe, ctx, steps, respell):
+    """steps: the literal steps the reference deletes by; respell (computed-key cases): spelling -> (steps to build the
+    glom path from, extra scope entries)"""
     ign = recipe['ignore_missing']
     rb = mc.build(recipe['target'])
     rpos_before = mc.positions(rb.obj)
@@ -110,16 +125,22 @@ def check(recipe, ctx):
               'ignore' if ign else 'strict')
     ctx.nontrivial(len(steps) >= 2 or exp[0] == 'err')
     for sp in mc.spellings(steps):
+        if respell is not None and sp == 's-rooted':
+            continue    # computed keys: the four addressing styles of the statement only
         gb = mc.build(recipe['target'])
         g = gb.obj
-        path = mc.make_path(steps, sp)
+        psteps, extra = (steps, {}) if respell is None else respell(sp)
+        path = mc.make_path(psteps, sp)
         before = tg.snapshot(g)
         pos_before = mc.positions(g)
         where = 'spelling=%s delete(%r, %r, ignore_missing=%r)' % (sp, g, path, ign)
         scope = {'tgt': g} if sp == 's-rooted' else {}
+        if extra:
+            scope.update(extra)
+            where += ' scope=%r' % (extra,)
         ctx.label('spelling-' + sp)
         try:
-            if sp == 's-rooted' or recipe['api'] == 'spec':
+            if sp == 's-rooted' or recipe['api'] == 'spec' or extra:
                 res = glom.glom(g, (Delete(path, ignore_missing=ign),), scope=scope)
             else:
                 res = glom.delete(g, path, ignore_missing=ign)
@@ -155,11 +176,13 @@ def check(recipe, ctx):
         if kind == 'fault' and ign:
             # the element is PRESENT and its deletion is refused: that is not a missing element.  "A successful delete
             # has exactly the effect of Python's del": returning normally with the element still there is no option,
-            # in any addressing style.  (A refusal that looks exactly like absence - AttributeError / LookupError from
-            # the container itself - cannot be told apart and is not constrained.)
+            # in any addressing style, and whatever exception class the refusal is spelled with: a read-only property,
+            # a frozen dataclass and a namedtuple field refuse with AttributeError, and the element is there (exp[4]:
+            # plain Python reads it).  Only a LookupError raised by the container's own deletion for an element that
+            # reads fine cannot be told from a concurrent absence and is not constrained (not generated).
             if unchanged:
                 raise Mismatch('not-atomic', '%s: deletion refused but the target changed: %s' % (where, unchanged))
-            if err is None and exp[4] is True and not isinstance(exp[3], (AttributeError, LookupError, ValueError)):
+            if err is None and exp[4] is True and not isinstance(exp[3], LookupError):
                 ctx.label('fault-under-ignore-missing')
                 raise Mismatch('refused-delete-reported-as-success', '%s: the element is present and del raises %r; glom returned '
                                'normally and the element is still there' % (where, exp[3]))
@@ -179,6 +202,290 @@ def check(recipe, ctx):
                 raise Mismatch('wrong-error-class', '%s: the final element is absent: expected PathDeleteError, got %s: %r'
                                % (where, type(err).__name__, getattr(err, 'args', err)))
     ctx.outcome([exp[0], exp[1] if exp[0] == 'err' else None, repr(recipe['steps'])])
+
+
+# ---------------------------------------------------------------------------
+# computed keys: a '[' step whose argument is a T expression / Spec / Val / scope variable addresses the key the
+# argument evaluates to over the target ("T ... now all use glom.core.arg_val", CHANGELOG 23.1.0; reading the same
+# expression shows which element is addressed), in the final position as in any other.
+#
+# The target is {'data': <tree>, 'keys': [k0, k1, ...]}; the reference resolves a computed argument with plain Python
+# (root['keys'][j]) and deletes by the literal steps; glom gets the same steps with T['keys'][j], Spec('keys.j'),
+# Spec(T['keys'][j]), Val(k) or S['kj'] (scope={'kj': k}) in place of the literal.
+
+KEY_FORMS = ['t', 't', 'spec-str', 'spec-t', 'val', 'scope']
+
+
+def _bracketize(target, steps):
+    """re-spell 'P' steps as '[' steps where plain Python means the same by both (a mapping key; an integer index of a
+    sequence, which 'P' passes through int()), so that the argument can be a computed one"""
+    cur, out, alive = target, [], True
+    for op, seg in steps:
+        if alive and op == 'P':
+            k = mc.kind_of(cur)
+            if k == 'map':
+                op = '['
+            elif k == 'seq':
+                try:
+                    seg, op = int(seg), '['
+                except (TypeError, ValueError):
+                    pass
+        out.append([op, seg])
+        if alive:
+            try:
+                cur = mc.access(cur, op, seg)
+            except Exception:
+                alive = False
+    return out
+
+
+def gen_computed(draw):
+    trec = mc.gen_target(draw)
+    target = mc.build(trec).obj
+    steps = mc.gen_steps(draw, target, max_len=3, final_present=draw(st.sampled_from([True, True, True, False, None])))
+    steps = [[draw(st.sampled_from(['[', '[', 'P'])), 'data']] + _bracketize(target, steps)
+    cand = [i for i, (op, _) in enumerate(steps) if op == '[']
+    last = len(steps) - 1
+    want = draw(st.sampled_from(['final', 'final', 'final', 'middle', 'both', 'all']))
+    if want == 'all':
+        chosen = cand
+    else:
+        chosen = []
+        if want in ('final', 'both') and last in cand:
+            chosen.append(last)
+        mid = [i for i in cand if i != last]
+        if mid and (want in ('middle', 'both') or not chosen):
+            chosen.append(draw(st.sampled_from(mid)))
+    keys, computed = [], []
+    for i in sorted(chosen):
+        computed.append([i, draw(st.sampled_from(KEY_FORMS)), len(keys)])
+        keys.append(steps[i][1])
+        steps[i][1] = None          # resolved through keys[j], by the reference and by glom
+    return {'target': ['dict', [['data', trec], ['keys', ['list', [['s', k] if isinstance(k, str) else ['i', k] for k in keys]]]]],
+            'steps': steps, 'computed': computed, 'ignore_missing': draw(st.booleans()),
+            'api': draw(st.sampled_from(['func', 'spec']))}
+
+
+def check_computed(recipe, ctx):
+    from glom import S, Spec, T, Val
+    ref_keys = mc.build(recipe['target']).obj['keys']
+    steps = [[op, seg] for op, seg in recipe['steps']]
+    last = len(steps) - 1
+    for i, form, j in recipe['computed']:
+        if steps[i][0] != '[' or steps[i][1] is not None:
+            raise HarnessBug('computed key at a step that is no T[...] step: %r' % (recipe,))
+        steps[i][1] = ref_keys[j]           # plain Python: the key the argument denotes
+        ctx.label('computed-final' if i == last else 'computed-middle', 'keyform-' + form)
+    steps = [(op, seg) for op, seg in steps]
+
+    def respell(sp):
+        psteps, extra = [list(x) for x in steps], {}
+        for i, form, j in recipe['computed']:
+            lit = ref_keys[j]
+            if form == 't':
+                arg = T['keys'][j]
+            elif form == 'spec-str':
+                arg = Spec('keys.%d' % j)
+            elif form == 'spec-t':
+                arg = Spec(T['keys'][j])
+            elif form == 'val':
+                arg = Val(lit)
+            else:
+                arg = S['k%d' % j]
+                extra['k%d' % j] = lit
+            psteps[i][1] = arg
+        return psteps, extra
+    n_before = ctx.labels.get('exp-ok', 0)
+    _check(recipe, ctx, steps, respell)
+    if any(i == last for i, _, _ in recipe['computed']):
+        ctx.label('computed-final-ok' if ctx.labels.get('exp-ok', 0) > n_before else 'computed-final-err')
+
+
+# ---------------------------------------------------------------------------
+# refusals spelled as AttributeError: a PRESENT attribute whose deletion Python refuses (frozen dataclass, property
+# without deleter, namedtuple field, read-only attribute of a builtin, __delattr__ that refuses everything) is not a
+# missing element: ignore_missing=True has nothing to ignore, returning normally would report a deletion that did not
+# happen.  An ABSENT attribute of the same objects is missing whatever the object's __delattr__ says about it.
+# Reference: getattr / delattr on an independently built holder.
+
+@dataclasses.dataclass(frozen=True)
+class Frozen(object):
+    x: int = 1
+    y: int = 2
+
+
+class ROProperty(object):
+    """x: property without deleter; y: ordinary instance attribute"""
+    def __init__(self):
+        self.y = 2
+
+    @property
+    def x(self):
+        return 1
+
+    def __repr__(self):
+        return 'ROProperty(%s)' % ', '.join(sorted(self.__dict__))
+
+
+class SetterOnly(object):
+    """x: property with a setter and no deleter"""
+    def __init__(self):
+        self._x = 1
+
+    x = property(lambda self: self._x, lambda self, v: self.__dict__.__setitem__('_x', v))
+
+    def __repr__(self):
+        return 'SetterOnly(_x=%r)' % (self._x,)
+
+
+class Sealed(object):
+    """refuses every attribute deletion the way read-only objects do (AttributeError)"""
+    def __init__(self):
+        self.__dict__['x'] = 1
+        self.__dict__['y'] = 2
+
+    def __delattr__(self, name):
+        raise AttributeError('sealed: cannot delete %r' % (name,))
+
+    def __repr__(self):
+        return 'Sealed(%s)' % ', '.join(sorted(self.__dict__))
+
+
+class SlotsXY(object):
+    """control: slots can be deleted (and an unset slot is absent)"""
+    __slots__ = ('x', 'y')
+
+    def __init__(self):
+        self.x = 1
+
+    def __repr__(self):
+        return 'SlotsXY(%s)' % ', '.join(n for n in self.__slots__ if hasattr(self, n))
+
+
+NTxy = collections.namedtuple('NTxy', 'x y')
+
+# tag -> (constructor, attribute names to draw from)
+HOLDERS = {
+    'frozen': (Frozen, ['x', 'y', 'zz']),
+    'roprop': (ROProperty, ['x', 'x', 'y', 'zz']),
+    'setteronly': (SetterOnly, ['x', 'zz']),
+    'sealed': (Sealed, ['x', 'y', 'zz']),
+    'ntuple': (lambda: NTxy(1, 2), ['x', 'y', 'zz']),
+    'float': (lambda: 2.5, ['real', 'imag', 'zz']),
+    'complex': (lambda: complex(1, 2), ['real', 'imag', 'zz']),
+    'range': (lambda: range(1, 5), ['start', 'stop', 'zz']),
+    'slice': (lambda: slice(1, 2), ['start', 'stop', 'zz']),
+    'slots': (SlotsXY, ['x', 'y', 'zz']),
+    'plain': (lambda: tg.Obj(x=1, y=2), ['x', 'y', 'zz']),
+}
+OBSERVED = ['x', 'y', 'zz', '_x', 'real', 'imag', 'start', 'stop']
+ADDRS = ['str', 'path', 't', 'path-t', 'mixed-t', 'mixed-p']
+
+
+def gen_refuse(draw):
+    holder = draw(st.sampled_from(sorted(HOLDERS)))
+    addrs = ADDRS if holder != 'ntuple' else ['t', 'path-t', 'mixed-t']   # a tuple has no 'delete' handler (by design)
+    return {'holder': holder, 'attr': draw(st.sampled_from(HOLDERS[holder][1])),
+            'wrap': draw(st.sampled_from(['root', 'dict', 'list', 'obj'])),
+            'addr': draw(st.sampled_from(addrs)), 'ignore_missing': draw(st.sampled_from([True, True, False])),
+            'api': draw(st.sampled_from(['func', 'spec']))}
+
+
+def _wrap(recipe):
+    h = HOLDERS[recipe['holder']][0]()
+    w = recipe['wrap']
+    if w == 'root':
+        return h, h, None
+    if w == 'dict':
+        return {'a': h, 'b': 1}, h, ('[', 'a')
+    if w == 'list':
+        return [0, h], h, ('[', 1)
+    return tg.Obj(a=h, b=1), h, ('.', 'a')
+
+
+def _observe(target, holder):
+    out = []
+    for n in OBSERVED:
+        try:
+            out.append((n, repr(getattr(holder, n))))
+        except AttributeError:
+            pass
+    return (tg.snapshot(target), out)
+
+
+def check_refuse(recipe, ctx):
+    from glom import Path, T
+    name, ign, addr = recipe['attr'], recipe['ignore_missing'], recipe['addr']
+    # reference: plain Python on an independently built holder
+    rt, rh, _ = _wrap(recipe)
+    try:
+        getattr(rh, name)
+        present = True
+    except AttributeError:
+        present = False
+    try:
+        delattr(rh, name)
+        refusal = None
+    except Exception as e:
+        refusal = e
+    if refusal is None and not present:
+        raise HarnessBug('del of an absent attribute succeeded: %r' % (recipe,))
+    exp = 'ok' if refusal is None else ('refused' if present else 'missing')
+    target, h, up = _wrap(recipe)
+    if up is None:
+        path = {'str': name, 'path': Path(name), 't': getattr(T, name), 'path-t': Path(getattr(T, name)),
+                'mixed-t': Path(getattr(T, name)), 'mixed-p': Path(name)}[addr]
+    else:
+        op, seg = up
+        tup = T[seg] if op == '[' else getattr(T, seg)
+        path = {'str': '%s.%s' % (seg, name), 'path': Path(seg, name), 't': getattr(tup, name),
+                'path-t': Path(getattr(tup, name)), 'mixed-t': Path(seg, getattr(T, name)), 'mixed-p': Path(tup, name)}[addr]
+    ctx.nontrivial(True)
+    ctx.label('exp-' + exp, 'holder-' + recipe['holder'], 'addr-' + addr, 'ignore' if ign else 'strict',
+              'final-attr' if addr in ('t', 'path-t', 'mixed-t') else 'final-P')
+    if ign:
+        ctx.label('ignore-' + exp)
+    where = 'delete(%r, %r, ignore_missing=%r)' % (target, path, ign)
+    before = _observe(target, h)
+    try:
+        if recipe['api'] == 'spec':
+            res = glom.glom(target, (Delete(path, ignore_missing=ign),))
+        else:
+            res = glom.delete(target, path, ignore_missing=ign)
+        err = None
+    except Exception as e:
+        err = e
+    after = _observe(target, h)
+    if exp == 'ok':
+        if err is not None:
+            raise Mismatch('spurious-error', '%s: the attribute exists and del succeeds; glom raised %s: %r'
+                           % (where, type(err).__name__, getattr(err, 'args', err)))
+        if res is not target:
+            raise Mismatch('wrong-return', '%s: must return the same object, got %r' % (where, res))
+        if after[1] != _observe(rt, rh)[1] or tg.structure(target) != tg.structure(rt):
+            raise Mismatch('wrong-effect', '%s: expected %r with attributes %r, got attributes %r'
+                           % (where, rt, _observe(rt, rh)[1], after[1]))
+        ctx.outcome([exp, recipe['holder'], name])
+        return
+    if before[1] != after[1] or tg.snapshot_diff(before[0], after[0]):
+        raise Mismatch('not-atomic', '%s: nothing deleted (%s) but the target changed: %r -> %r' % (where, exp, before[1], after[1]))
+    if exp == 'refused':
+        # present and del raises: an error in every addressing style, with and without ignore_missing (class not constrained)
+        if err is None:
+            raise Mismatch('refused-delete-reported-as-success' if ign else 'missing-error',
+                           '%s: the attribute is present (getattr reads it) and del raises %r; glom returned normally and '
+                           'the attribute is still there' % (where, refusal))
+    elif ign:
+        if err is not None:
+            raise Mismatch('ignore-missing-not-honoured', '%s: the attribute is absent (getattr and del both raise: %r), '
+                           'ignore_missing=True, glom raised %s: %r' % (where, refusal, type(err).__name__, getattr(err, 'args', err)))
+        if res is not target:
+            raise Mismatch('wrong-return', '%s: must return the target' % where)
+    else:
+        if not isinstance(err, PathDeleteError):
+            raise Mismatch('wrong-error-class' if err is not None else 'missing-error',
+                           '%s: the attribute is absent: expected PathDeleteError, got %r' % (where, err))
+    ctx.outcome([exp, recipe['holder'], name, type(err).__name__ if err is not None else None])
 
 
 # ---------------------------------------------------------------------------
@@ -299,6 +606,15 @@ def check_wild(recipe, ctx):
 SUBS = [
     Sub('delete', check, gen=gen, quick=5000, thorough=15000,
         floors={'exp-ok': 0.15, 'exp-err-final': 0.05, 'exp-err-parent': 0.05, 'spelling-str': 0.1, 'spelling-t': 0.02}),
+    Sub('computed', check_computed, gen=gen_computed, quick=1000, thorough=6000,
+        floors={'computed-final': 0.23, 'computed-final-ok': 0.12, 'computed-final-err': 0.1, 'computed-middle': 0.25,
+                'keyform-t': 0.24, 'keyform-spec-str': 0.07, 'keyform-spec-t': 0.04, 'keyform-val': 0.045, 'keyform-scope': 0.05,
+                'spelling-t': 0.2}),
+    Sub('refuse', check_refuse, gen=gen_refuse, quick=600, thorough=3000,
+        floors={'ignore-refused': 0.19, 'ignore-missing': 0.1, 'exp-ok': 0.04, 'final-attr': 0.24, 'final-P': 0.24,
+                'holder-frozen': 0.03, 'holder-roprop': 0.03, 'holder-setteronly': 0.03, 'holder-sealed': 0.03,
+                'holder-ntuple': 0.03, 'holder-float': 0.03, 'holder-complex': 0.03, 'holder-range': 0.03,
+                'holder-slice': 0.03, 'addr-str': 0.07, 'addr-path': 0.06, 'addr-t': 0.07}),
     Sub('wild', check_wild, gen=gen_wild, quick=1500, thorough=5000, floors={'wild-2': 0.1, 'wild-3': 0.1}),
     Sub('registered', check_registered, gen=gen_registered, quick=300, thorough=1000),
 ]
